@@ -22,7 +22,7 @@ func init() {
 			return evid.Spec{ID: "C18", Level: "model_checking", Exhaustive: true,
 				Rule: "the C10 configuration with every password and both shared secrets replaced by unique VERIF_SEED-derived tokens; a recording logger implementing the handlers' logger interface (Infof/Errorf/Debugf/Record/Set) at all levels; " +
 					"configuration plane: 4 configurations (main; both scopes served from one keychain entry; a third scope sharing an entry; unassigned scope + unknown handler/provider types + duplicate user) each loaded alone and reloaded over each other, every call the loader makes on the logger searched for the shared secrets, then a login served; " +
-					"histories: depth <= 3 over the C10 core alphabet, depth 3 over the ASCII-login packets plus passwords containing a non-ASCII byte (which travel the decode-error paths), blank and padded user names and the password that follows them, and depth 2 over the full alphabet (x 2 session ids), plus the full START product action{1,2,4} x type{1..6} x service{0,1,2} x minor{0,1} x first sequence number{1,3,255} carrying a password token (right and, for PAP, wrong) in data, alone and followed by a CONTINUE. " +
+					"histories: depth <= 3 over the C10 core alphabet, depth 3 over the ASCII-login packets plus passwords containing a non-ASCII byte (which travel the decode-error paths), blank and padded user names and the password that follows them, and depth 2 over the full alphabet (x 2 session ids), plus the full START product action{1,2,4} x type{1..6} x service{0,1,2} x minor{0,1} x first sequence number{1,3,255} carrying a password token (right and, for PAP, wrong) in data, alone and followed by a CONTINUE, in a process that has first answered five STARTs carrying no data at all. " +
 					"A token counts as a presented password when it travels in the data of a START whose authen_type is PAP or in the CONTINUE answering GETPASS (a token sent anywhere else, e.g. typed as a user name, is dropped from the watch list for that history). " +
 					"Every call is also forwarded to the repository's own logger (cmds/server/log at debug level) writing into a buffer. Oracle after every packet: no watched token and no shared secret occurs in that output, in any formatted message, in any Record value whose key the same call does not list as obscured, in any field selected by key in a Set (retention) call, " +
 					"or in any reply handed to a response logger. states = distinct session-stage states; transitions = packets delivered",
@@ -264,6 +264,23 @@ func c18Run(c *Ctx) {
 		panic(err)
 	}
 	defer rw.stop()
+	// what this process has logged before must not matter: every worker first sends STARTs that carry no data at all
+	// (routed and unrouted), each on its own connection, then walks its share of the product
+	for _, p := range []rPkt{{Kind: "start", Action: 1, AType: 1, Service: 1, Minor: 1, User: "own"}, {Kind: "start", Action: 1, AType: 3, Service: 1, Minor: 1, User: ""},
+		{Kind: "start", Action: 2, AType: 2, Service: 1, Minor: 1}, {Kind: "start", Action: 1, AType: 2, Service: 1, Minor: 0, User: "own"}, {Kind: "ascii", User: ""}} {
+		rc, err := rw.openR(e, "s1")
+		if err != nil {
+			c.Abort("hang", err.Error(), nil)
+		}
+		if _, err := rw.deliverR(rc, 0, p); err != nil {
+			c.Abort("hang", err.Error(), nil)
+		}
+		c.R.Trans(1)
+		if !rc.C.Closed() {
+			rc.C.FeedEOF()
+		}
+		c18Out.take()
+	}
 	job := 0
 	for _, st := range alpha1 {
 		for _, sec := range second {
